@@ -1,12 +1,6 @@
-//! rtcheck accessors for private functions of prayer_times/hours.rs (cfg(ipt_verif_rt) only)
+//! rtcheck accessor for the private hour_to_time (cfg(ipt_verif_rt) only)
 use super::*;
 
 pub(crate) fn x_hour_to_time(params: &Params, prayer: Prayer, hour: f64) -> chrono::NaiveTime {
     hour_to_time(params, prayer, hour)
-}
-pub(crate) fn x_get_ra_interp_deltas(t: &TopAstroDay) -> (f64, f64) {
-    get_ra_interp_deltas(t)
-}
-pub(crate) fn x_get_hours(params: &Params, t: &TopAstroDay, w: Weather) -> std::collections::HashMap<Prayer, Result<f64, ()>> {
-    get_hours(params, t, w)
 }
